@@ -432,10 +432,12 @@ static void gen_cases(const sx::Options& opt, std::vector<sx::Case>& cases) {
       for (int omit = 0; omit < 2; omit++) { int alg = (k++) % 3; auto sp = std::make_shared<Spec2>(s); add("net2d/consistent/" + s.name + "/" + ALGS[alg] + (omit ? "/acord" : "/given"), "plane networks", [sp, alg, omit] { case_consistent(*sp, alg, omit != 0); }); } }
     // two-angle resections in pseudo-random integer geometries (general position: the constants are radicals and arctangents, compared
     // numerically); which of the two circle intersections is the point, and where bearing 0 falls, varies from one to the next
-    // (the family is fixed, independent of VERIF_SEED; the second pass regenerates the family of another seed only to add two of its
-    //  members, for which Acord2 finds no coordinates although the resection is well conditioned: listed as known findings by name)
-    for (int pass = 0; pass < 2; pass++) { qla::Rng rng(606 + pass); int made = 0;
-      for (int t = 0; made < (pass ? 60 : (th ? 60 : 24)) && t < 400; t++) { Spec2 s; s.name = (pass ? "resection-unresolved" : "resection-random") + std::to_string(made);
+    // (the family is fixed, independent of VERIF_SEED).  Only geometries that the documented strategy resolves are generated:
+    // Angle_angle intersects the circle through A, B, T with the one through B, C, T and refuses on purpose when they cut at
+    // less than 10 gon (sin < 0.15, g2d_cogo.cpp "intersection angle < 10 gon"), relaxed once to 6 gon (sin < 0.1) by
+    // AcordIntersection; the family keeps sin >= 0.11, which includes members between the two limits
+    { qla::Rng rng(606); int made = 0;
+      for (int t = 0; made < (th ? 60 : 24) && t < 600; t++) { Spec2 s; s.name = "resection-random" + std::to_string(made);
         long tx = rng.range(-300, 300), ty = rng.range(-300, 300); long px[3], py[3]; bool ok = true;
         for (int i = 0; i < 3; i++) { px[i] = rng.range(-500, 500); py[i] = rng.range(-500, 500); if (std::labs(px[i] - tx) + std::labs(py[i] - ty) < 60) ok = false; for (int j = 0; j < i; j++) if (std::labs(px[i] - px[j]) + std::labs(py[i] - py[j]) < 60) ok = false; }
         // not (nearly) on the circle through the three targets, targets not collinear with the point
@@ -443,12 +445,18 @@ static void gen_cases(const sx::Options& opt, std::vector<sx::Case>& cases) {
             double ux = ((ax * ax + ay * ay) * (by - cy) + (bx * bx + by * by) * (cy - ay) + (cx * cx + cy * cy) * (ay - by)) / d, uy = ((ax * ax + ay * ay) * (cx - bx) + (bx * bx + by * by) * (ax - cx) + (cx * cx + cy * cy) * (bx - ax)) / d;
             double R = std::hypot(ax - ux, ay - uy), dist = std::hypot(tx - ux, ty - uy); if (std::fabs(dist - R) < 0.15 * R) ok = false; }
           // the sights from the point cut each other at 30..150 degrees (no weak resection: Acord2 refuses those on purpose)
-          for (int i = 0; i < 3 && ok; i++) for (int j = 0; j < i; j++) { double c = (double)(px[i] - tx) * (py[j] - ty) - (double)(py[i] - ty) * (px[j] - tx); double n1 = std::hypot(px[i] - tx, py[i] - ty), n2 = std::hypot(px[j] - tx, py[j] - ty); if (std::fabs(c) < 0.5 * n1 * n2) ok = false; } }
+          for (int i = 0; i < 3 && ok; i++) for (int j = 0; j < i; j++) { double c = (double)(px[i] - tx) * (py[j] - ty) - (double)(py[i] - ty) * (px[j] - tx); double n1 = std::hypot(px[i] - tx, py[i] - ty), n2 = std::hypot(px[j] - tx, py[j] - ty); if (std::fabs(c) < 0.5 * n1 * n2) ok = false; }
+          // the two circles of the construction cut at T at an angle whose sine is at least 0.11
+          if (ok) { auto centre = [](double x1, double y1, double x2, double y2, double x3, double y3, double& ox, double& oy) { double dd = 2 * (x1 * (y2 - y3) + x2 * (y3 - y1) + x3 * (y1 - y2));
+                ox = ((x1 * x1 + y1 * y1) * (y2 - y3) + (x2 * x2 + y2 * y2) * (y3 - y1) + (x3 * x3 + y3 * y3) * (y1 - y2)) / dd; oy = ((x1 * x1 + y1 * y1) * (x3 - x2) + (x2 * x2 + y2 * y2) * (x1 - x3) + (x3 * x3 + y3 * y3) * (x2 - x1)) / dd; };
+            double o1x, o1y, o2x, o2y; centre(ax, ay, bx, by, tx, ty, o1x, o1y); centre(bx, by, cx, cy, tx, ty, o2x, o2y);
+            double c = (o1x - tx) * (o2y - ty) - (o1y - ty) * (o2x - tx), n1 = std::hypot(o1x - tx, o1y - ty), n2 = std::hypot(o2x - tx, o2y - ty); if (!(std::fabs(c) >= 0.11 * n1 * n2)) ok = false;
+            if (getenv("SX_DUMP_RESECTION")) std::cerr << "resection t=" << t << " ok=" << ok << " sin=" << sx::numeric0(std::fabs(c) / (n1 * n2)) << "\n"; } }
         if (!ok) continue;
         s.pts = {{"A", Q(px[0]), Q(py[0]), 'f', true}, {"B", Q(px[1]), Q(py[1]), 'f', true}, {"C", Q(px[2]), Q(py[2]), 'f', true}, {"T", Q(tx), Q(ty), 'a', true}};
         St2 st; st.from = 3; st.zero = Q(0); st.obs.push_back({2, 0, 1, Q(10)}); st.obs.push_back({2, 1, 2, Q(10)}); s.st.push_back(st);
         int alg = made % 3; auto sp = std::make_shared<Spec2>(s);
-        if (!pass || made == 42 || made == 49) add("net2d/consistent/" + s.name + "/" + ALGS[alg] + "/acord", "plane networks", [sp, alg] { case_consistent(*sp, alg, true); });
+        add("net2d/consistent/" + s.name + "/" + ALGS[alg] + "/acord", "plane networks", [sp, alg] { case_consistent(*sp, alg, true); });
         made++; } }
     for (auto& s : fixed) for (int omit = 0; omit < 2; omit++) { int alg = (k++) % 3; auto sp = std::make_shared<Spec2>(s); add("net2d/consistent/" + s.name + "/" + ALGS[alg] + (omit ? "/acord" : "/given"), "plane networks", [sp, alg, omit] { case_consistent(*sp, alg, omit != 0); }); } }
   if (on("C07")) { int k = 0; for (auto& s : fixed) for (int v : {2, 3, 10, 11, 12, 13, 14}) { if (v >= 10 && v - 10 >= (int)s.st.size()) continue; if (!th && v >= 10 && v != 10 && v != 12) continue; int alg = (k++) % 3; auto sp = std::make_shared<Spec2>(s); bool rev = (v >= 10) && ((v + k) % 2 == 0);      // the errors of the sets in decreasing order for every other turned set
